@@ -1796,6 +1796,7 @@ impl Vm {
     fn try_handle_error(&mut self, error: Error) -> Result<(), Error> {
         let obj_err = self.new_root_obj_err_from_error(error);
         self.push(Value::ObjInstance(obj_err.as_gc()));
+        self.active_fiber_mut().error_ip = Some(self.ip);
         self.unwind_stack()
     }
 
